@@ -7,20 +7,48 @@ From J5V.model Require Import ReflectDesc ReflectSchema Reflect ReflectSpec Refl
 Import ListNotations.
 Local Open Scope bool_scope.
 
+(* decidable equality of terms of the source-API form (transparent: evaluated by vm_compute) *)
+Definition xschema_dec : forall a b : xschema, {a = b} + {a <> b}.
+Proof. decide equality; apply ref_dec. Defined.
+Definition xfield_dec : forall a b : xfield, {a = b} + {a <> b}.
+Proof.
+  decide equality;
+    try apply bool_dec; try apply optN_dec; try apply xschema_dec; try apply sproto_dec;
+    try apply (list_eq_dec str_dec);
+    try (apply opt_dec; first [apply (pair_dec (list_eq_dec str_dec) (list_eq_dec str_dec))
+                              | apply (pair_dec optN_dec optN_dec)
+                              | apply (pair_dec (pair_dec optN_dec optN_dec) optb_dec)
+                              | apply optstr_dec]).
+Defined.
+Definition xprop_dec : forall a b : xprop, {a = b} + {a <> b}.
+Proof.
+  decide equality; try apply bool_dec; try apply str_dec; try apply xfield_dec; apply (list_eq_dec N.eq_dec).
+Defined.
+Definition xoption_dec : forall a b : xoption, {a = b} + {a <> b}.
+Proof. decide equality; try apply str_dec; try apply Z.eq_dec; apply info_dec. Defined.
+Definition xroot_dec : forall a b : xroot, {a = b} + {a <> b}.
+Proof.
+  decide equality; try apply str_dec; try apply (list_eq_dec xprop_dec); try apply (list_eq_dec str_dec);
+    try apply (list_eq_dec xoption_dec);
+    try apply (opt_dec (pair_dec str_dec N.eq_dec));
+    apply (list_eq_dec (pair_dec (pair_dec str_dec str_dec) str_dec)).
+Defined.
+Definition xroot_eqb (a b : xroot) : bool := if xroot_dec a b then true else false.
+
 (* [first]/[second]: exported schemas keyed by (package incl. sub-package, name), any order *)
 Inductive c15case :=
 | C15Case (d : desc) (files : list str)
-          (cls_export : N) (first : list (ref * root))
-          (cls_import : N) (second : list (ref * root)).
+          (cls_export : N) (first : list (ref * xroot))
+          (cls_import : N) (second : list (ref * xroot)).
 
-Fixpoint assoc (l : list (ref * root)) (k : ref) : option root :=
+Fixpoint assoc (l : list (ref * xroot)) (k : ref) : option xroot :=
   match l with
   | [] => None
   | (k', r) :: rest => if ref_eqb k' k then Some r else assoc rest k
   end.
-Definition same_map (a b : list (ref * root)) : bool :=
+Definition same_map (a b : list (ref * xroot)) : bool :=
   Nat.eqb (length a) (length b) &&
-  forallb (fun kr => match assoc b (fst kr) with Some r => root_eqb r (snd kr) | None => false end) a.
+  forallb (fun kr => match assoc b (fst kr) with Some r => xroot_eqb r (snd kr) | None => false end) a.
 
 Definition files_of (D : desc) (paths : list str) : option (list filed) :=
   fold_right (fun p acc => match find_file D p, acc with Some f, Some l => Some (f :: l) | _, _ => None end) (Some []) paths.
@@ -49,7 +77,7 @@ Definition orders {A} (l : list A) : list (list A) :=
   if Nat.leb (length l) 4 then perms l
   else let rs := rotations_from (length l) l in rs ++ map (@rev A) rs.
 
-Definition check_export (D : desc) (files : list str) (cls_export : N) (first : list (ref * root)) : bool :=
+Definition check_export (D : desc) (files : list str) (cls_export : N) (first : list (ref * xroot)) : bool :=
   match files_of D files with
   | None => false
   | Some fs =>
@@ -69,10 +97,10 @@ Definition check_export (D : desc) (files : list str) (cls_export : N) (first : 
       else existsb (fun p => N.eqb cls_export (cls (reflect D p))) (orders fs)
   end.
 
-Definition exported (st : sset) : list (ref * root) :=
+Definition exported (st : sset) : list (ref * xroot) :=
   match export_set st with Ok l => l | _ => [] end.
 
-Definition check_import (cls_export : N) (first : list (ref * root)) (cls_import : N) (second : list (ref * root)) : bool :=
+Definition check_import (cls_export : N) (first : list (ref * xroot)) (cls_import : N) (second : list (ref * xroot)) : bool :=
   if negb (N.eqb cls_export 0) then true
   else match import_api first with
        | ROk st => N.eqb cls_import 0 && same_map (exported st) second
